@@ -555,3 +555,31 @@ def sample_string(ast, rnd, depth=0):
     if k == 'plus': return b''.join(sample_string(ast[1], rnd, depth + 1) for _ in range(rnd.choice([1, 2, 3] if depth < 2 else [1])))
     if k == 'opt': return sample_string(ast[1], rnd, depth) if rnd.random() < 0.5 else b''
     if k == 'rep': return b''.join(sample_string(ast[1], rnd, depth) for _ in range(ast[2]))
+
+
+def long_sample(ast, rnd, n):
+    """a member of the language of about n bytes, obtained by iterating the outermost loops many times (None if the language is finite)"""
+    k = ast[0]
+    if k == 'set': return None
+    if k == 'grp': return long_sample(ast[1], rnd, n)
+    if k in ('star', 'plus'):
+        unit = sample_string(ast[1], rnd)
+        if not unit:
+            for _ in range(10):
+                unit = sample_string(ast[1], rnd)
+                if unit: break
+        if not unit: return None
+        return unit * (n // len(unit) + 1)
+    if k == 'cat':
+        a = long_sample(ast[1], rnd, n)
+        if a is not None: return a + sample_string(ast[2], rnd)
+        b = long_sample(ast[2], rnd, n)
+        if b is not None: return sample_string(ast[1], rnd) + b
+        return None
+    if k == 'alt':
+        return long_sample(ast[1], rnd, n) or long_sample(ast[2], rnd, n)
+    if k == 'opt': return long_sample(ast[1], rnd, n)
+    if k == 'rep':
+        if ast[2] == 0: return None
+        a = long_sample(ast[1], rnd, n)
+        return None if a is None else a + b''.join(sample_string(ast[1], rnd) for _ in range(ast[2] - 1))
